@@ -291,7 +291,7 @@ Section Doc.
     - pose proof (Hg (e, c) (or_introl eq_refl)) as Hec. cbn [fst snd] in Hec.
       assert (Hr : forall ec, In ec r -> set_good (fst ec) (snd ec)) by (intros ec Hin; apply Hg; right; exact Hin).
       unfold hh at 2. cbn [fst snd].
-      destruct e as [n|n]; [destruct n|]; cbn [ofm_step set_out app]; try apply (IH errs Hr).
+      destruct e as [n|n]; [destruct n|]; cbn [ofm_step ofm_step_with set_out app]; try apply (IH errs Hr).
       cbn [set_good] in Hec. destruct Hec as [ms [cs [E Hc]]].
       cbn [ofm_compared ofm_res r_errors r_oof]. rewrite E, Hc. rewrite (IH _ Hr), app_assoc. reflexivity.
   Qed.
